@@ -326,6 +326,36 @@ pub fn run(ctx: &'static Ctx) {
             l.fail(ctx, idx, v, || json!({"kind": "spelling", "enum": name, "spelling": s}));
         }
     });
+    // a byte string carrying the octets of a spelling is not the identifier (wrong CBOR type)
+    let mut bcases: Vec<(usize, String)> = Vec::new();
+    for (i, (_, table)) in STRING_ENUMS.iter().enumerate() {
+        for s in table.iter() {
+            bcases.push((i, s.to_string()));
+        }
+        bcases.push((i, String::new()));
+    }
+    let br = &bcases;
+    sweep(ctx, "spellings presented as CBOR byte strings", bcases.len() as u64, "every valid spelling of every string enumeration encoded as a byte string instead of a text string", move |idx, l| {
+        let (e, s) = &br[idx as usize];
+        let (name, _) = STRING_ENUMS[*e];
+        l.nontrivial += 1;
+        l.bump("unlisted spelling");
+        let bytes = encode(&V::B(s.as_bytes().to_vec()));
+        let accepted = guard(|| match name {
+            "Version" => cbor_smol::cbor_deserialize::<Version>(&bytes).is_ok(),
+            "Extension" => cbor_smol::cbor_deserialize::<Extension>(&bytes).is_ok(),
+            "Transport" => cbor_smol::cbor_deserialize::<Transport>(&bytes).is_ok(),
+            _ => cbor_smol::cbor_deserialize::<AttestationStatementFormat>(&bytes).is_ok(),
+        });
+        let v = match accepted {
+            Ok(false) => Verdict::pass(),
+            Ok(true) => Verdict::fail(format!("{}|{}|accepts-byte-string", P, name), "rejected (a byte string is not the text identifier)", format!("h'{}' accepted", hex(s.as_bytes()))),
+            Err(p) => Verdict::fail(format!("{}|{}|panic", P, name), "no panic", p),
+        };
+        if !v.ok {
+            l.fail(ctx, idx, v, || json!({"kind": "spelling-bytes", "enum": name, "spelling": s}));
+        }
+    });
     // numbers through CBOR
     let probes = num_probes();
     let total = (NUM_ENUMS.len() * probes.len()) as u64;
@@ -368,6 +398,21 @@ pub fn replay(case: &Value) -> Verdict {
         Some("spelling") => {
             let (name, table) = *STRING_ENUMS.iter().find(|e| e.0 == case["enum"].as_str().unwrap()).unwrap();
             check_string(name, table, case["spelling"].as_str().unwrap())
+        }
+        Some("spelling-bytes") => {
+            let name = case["enum"].as_str().unwrap();
+            let bytes = encode(&V::B(case["spelling"].as_str().unwrap().as_bytes().to_vec()));
+            let accepted = match name {
+                "Version" => cbor_smol::cbor_deserialize::<Version>(&bytes).is_ok(),
+                "Extension" => cbor_smol::cbor_deserialize::<Extension>(&bytes).is_ok(),
+                "Transport" => cbor_smol::cbor_deserialize::<Transport>(&bytes).is_ok(),
+                _ => cbor_smol::cbor_deserialize::<AttestationStatementFormat>(&bytes).is_ok(),
+            };
+            if accepted {
+                Verdict::fail(format!("{}|{}|accepts-byte-string", P, name), "rejected", "accepted")
+            } else {
+                Verdict::pass()
+            }
         }
         Some("number") => {
             let (name, table) = *NUM_ENUMS.iter().find(|e| e.0 == case["enum"].as_str().unwrap()).unwrap();
